@@ -61,7 +61,7 @@ theorem finish_tsig_owner_decodes (macFn : Tsig → List UInt8 → List UInt8) (
       obtain ⟨a1, z1, _⟩ := appB_finishOpt_any s.edns _ s1 ho'
       have hc1 : s1.cursor = s.cursor + (optEnc s.edns).length := a1.cur
       -- the TSIG record
-      rcases finishTsig_inv hw with ⟨hn, _, _⟩ | ⟨ts', rdata, hts', hlen, hadd⟩
+      rcases finishTsig_inv hw with ⟨hn, _, _⟩ | ⟨ts', rdata, hts', hlen, hadd, _⟩
       · rw [hts] at hn; cases hn
       · rw [hts] at hts'
         cases hts'
